@@ -43,7 +43,8 @@ RULE = (
     "type (JSON / Simple / Pydantic / Simpler where the class can be built with it), the cache (none / SimpleCache / "
     "MemoryFullCache / HDF5Cache in VERIF_SCRATCH, tolerance 0 or 1e-12), whether statistics are enabled, a life before pickling "
     "(0-4 of: execute at a generated point, repeated execute, linearize all / a differentiated subset, re-bound default, "
-    "finite-difference mode, a CustomDOE scenario driving the object with or without Jacobians), the channel (pickle.dumps/loads "
+    "finite-difference mode, a CustomDOE scenario driving the object with or without Jacobians, grammar edits after use: "
+    "restrict_to removing an output or the added input, update_from_data adding an optional input, rename_element), the channel (pickle.dumps/loads "
     "with protocol 2/4/5, to_pickle/from_pickle, or a forked multiprocessing worker that receives the object through a pipe, "
     "executes it and sends it back), 1-3 generated points (base point of the recipe perturbed component-wise, possibly omitting "
     "defaulted inputs, executed or linearized) and 1-4 mutations.  The restored object must expose equal grammars (ordered "
@@ -58,7 +59,11 @@ RULE = (
     "the restored object is mutated again (1-3 of the same mutations plus deletion of a default), serialised again "
     "(dumps or file) and restored; the second generation must expose the state of the object it was made from and compute "
     "the same values / counters at the generated points; functions, spaces, problems and scenarios are likewise serialised "
-    "a second time after use.  Further drives: 18 MDOFunction kinds incl. ProblemFunction of a preprocessed problem (attributes, n_calls, "
+    "a second time after use.  Drive cross_process: a batch of 6-8 disciplines (always two AnalyticDisciplines with 5-6 input "
+    "symbols, plus drawn recipes, life of 0-2 steps) is built, used and saved with to_pickle by a child interpreter started "
+    "with PYTHONHASHSEED=a, then loaded with from_pickle, executed and linearized by another child with PYTHONHASHSEED=b != a "
+    "(a, b in {0, 1, 2, 3, 123}); the loaded object must expose the saved state and return bit-identical outputs / Jacobians "
+    "to those the saving process computes on its own object after saving.  Further drives: 18 MDOFunction kinds incl. ProblemFunction of a preprocessed problem (attributes, n_calls, "
     "travelling database, evaluate / jac, independence); DesignSpace / ParameterSpace (views, ==, normalisation / projection / "
     "cdf maps, OT sampling, independence); OptimizationProblem fresh / evaluated / after a driver (views incl. database, "
     "solution, counters; evaluate_functions; SLSQP / COBYLA / LHS / Halton run on both: equal results and databases; "
@@ -80,6 +85,8 @@ ASSUMPTIONS = [
     "an operation that raises on the original must raise the same exception type on the restored object (counted as a class)",
     "a case whose library calls do not terminate within 300 s (seen once: SLSQP on an inconsistent equality system, before any "
     "pickling) is abandoned and listed as inconclusive; it is neither a pass nor a violation",
+    "saving and loading interpreters differ only by their hash seed (same machine, same libraries): bit-identical results are "
+    "required; local data after a finite-difference linearisation (last perturbed input, iteration-order dependent) are not compared",
     "random samples of a ParameterSpace are compared for OpenTURNS distributions only (global generator re-seeded before each "
     "call); SciPy frozen distributions pickle a private copy of the RandomState, which is SciPy's documented behaviour",
 ]
@@ -281,14 +288,25 @@ def cache_view(cache) -> dict | None:
     if type(cache).__name__ == "HDF5Cache":
         view["file"] = str(cache.hdf_file.hdf_file_path)
         view["node"] = cache.hdf_node_path
-    if len(cache):
-        last = cache.last_entry
-        view["last_entry"] = {"in": dict(last.inputs), "out": dict(last.outputs)}
-    entries = []
-    # (get_all_entries() of an empty HDF5Cache raises an AssertionError: outside this property)
-    for entry in cache.get_all_entries() if len(cache) else ():
-        entries.append({"in": dict(entry.inputs), "out": dict(entry.outputs), "jac": {k: dict(v) for k, v in (entry.jacobian or {}).items()}})
-    view["entries"] = entries
+    # reading may fail for reasons of the cache format (e.g. a ragged Jacobian in an HDF5 node): the failure
+    # itself is then what both objects must have in common
+    def read():
+        out = {}
+        if len(cache):
+            last = cache.last_entry
+            out["last_entry"] = {"in": dict(last.inputs), "out": dict(last.outputs)}
+        entries = []
+        # (get_all_entries() of an empty HDF5Cache raises an AssertionError: outside this property)
+        for entry in cache.get_all_entries() if len(cache) else ():
+            entries.append({"in": dict(entry.inputs), "out": dict(entry.outputs), "jac": {k: dict(v) for k, v in (entry.jacobian or {}).items()}})
+        out["entries"] = entries
+        return out
+
+    status, content = _call(read)
+    if status == "ok":
+        view.update(content)
+    else:
+        view["unreadable"] = content
     return view
 
 
@@ -429,7 +447,9 @@ def _weighted(kinds):
     return names
 
 
-PRE_OPS = ["exec", "exec", "exec_same", "lin_all", "lin_all", "lin", "lin", "defaults", "approx", "scenario"]
+PRE_OPS = ["exec", "exec", "exec_same", "lin_all", "lin_all", "lin", "lin", "defaults", "approx", "scenario",
+           "g_restrict", "g_restrict", "g_update", "g_rename"]
+EXTRA_INPUT = "c20_extra"  # optional input added to / renamed in / removed from the input grammar by the g_* steps
 
 
 def _second():
@@ -601,6 +621,34 @@ class Life:
             self.flags.add("fd_mode")
         elif kind == "scenario":
             self.scenario_run(op)
+        elif kind == "g_update":
+            # a new optional input with a default value (ignored by the body of the discipline)
+            grammar = d.io.input_grammar
+            if EXTRA_INPUT not in grammar and EXTRA_INPUT + "_renamed" not in grammar:
+                grammar.update_from_data({EXTRA_INPUT: np.array([1.0])})
+                grammar.required_names.discard(EXTRA_INPUT)
+                grammar.defaults[EXTRA_INPUT] = np.array([float(op["k"])])
+                self.flags.add("grammar_updated")
+        elif kind == "g_rename":
+            grammar = d.io.input_grammar
+            if EXTRA_INPUT in grammar:
+                grammar.rename_element(EXTRA_INPUT, EXTRA_INPUT + "_renamed")
+                self.flags.add("grammar_renamed")
+        elif kind == "g_restrict":
+            # remove one element: the added input if there is one, else one of several outputs
+            extra = [n for n in d.io.input_grammar if n.startswith(EXTRA_INPUT)]
+            outs = list(d.io.output_grammar)
+            if extra:
+                d.io.input_grammar.restrict_to([n for n in d.io.input_grammar if n not in extra])
+                self.flags.add("grammar_restricted:input")
+            elif len(outs) >= 2:
+                removed = outs[op["k"] % len(outs)]
+                d.io.output_grammar.restrict_to([n for n in outs if n != removed])
+                if hasattr(d, "_differentiated_output_names") and removed in d._differentiated_output_names:
+                    d._differentiated_output_names.remove(removed)
+                self.flags.add("grammar_restricted:output")
+            if self.n_exec or self.n_lin:
+                self.flags.add("grammar_restricted_after_use")
 
     def scenario_run(self, op) -> None:
         """Drive the object by a small DOE scenario (DisciplinaryOpt, CustomDOE on one input)."""
@@ -870,6 +918,12 @@ def _discipline_body(p, ctx, rec, tmp):
                 got = _call(lambda: plain({o: dict(v) for o, v in life.linearize(untouched, _cp(data), mode, k).items()}))
             ctx.check(got[0] == "ok", "independence", f"after mutating the {who} object the other one raises {got[1]}")
             value = got[1]
+            if mode == "no":
+                # a computed answer also carries items that are not in the (restricted) grammars, a cached one does not
+                # (nor the value a sub-discipline computed for a name that is now only an input of the process)
+                names = {K(n) for n in untouched.io.output_grammar}
+                value = {k: v for k, v in value.items() if k in names}
+                expected = {k: v for k, v in expected.items() if k in names}
             if mode == "subset":
                 # differentiated names accumulate and a cache hit returns every stored block: compare the
                 # blocks present in both answers
@@ -905,7 +959,7 @@ def _second_generation(p, ctx, life, rec, first, stats, probe, cache_kind, tmp, 
         ctx.cls(f"second_generation_mutation:{m}")
     ctx.cls("second_generation")
     for data, mode, k, partial in points:
-        if cache_kind == "HDF5" and (partial or mode != "no"):
+        if cache_kind == "HDF5" and (partial or mode != "no" or not all(n in data for n in first.io.input_grammar)):
             continue  # two live caches on one node: only points that are stored (hits, nothing written)
         if mode == "no":
             r1 = _call(lambda: plain(dict(first.execute(_cp(data)))))
@@ -1538,7 +1592,205 @@ def _scenario_body(p, ctx, tmp):
                 "channel": p["channel"], "post": post["algo_name"]})
 
 
-ORACLES = {"discipline": case_discipline, "function": case_function, "space": case_space, "problem": case_problem, "scenario": case_scenario}
+# ======================================================================================
+# two interpreters: saved by one process, loaded by another one with another hash seed
+# ======================================================================================
+CROSS_SEEDS = [0, 1, 2, 3, 123]
+CROSS_EXCLUDED = ("ScenarioAdapter",)  # several optimisations per execution: too slow for a batch
+_CHILD = (
+    "import sys; sys.path.insert(0, {verif!r}); from vlib import env; env.bootstrap(); "
+    "import checks.c20_serialization as m; m.child_main(sys.argv[1], sys.argv[2])"
+)
+
+
+def _item(draw, name: str, args=None):
+    rec = R.RECIPES[name]
+    ops = ["exec", "exec", "lin_all", "lin", "defaults", "exec_same", "g_restrict", "g_update"]
+    return {
+        "recipe": name,
+        "args": args if args is not None else draw(rec.args),
+        "gi": draw(st.integers(0, 7)),
+        "cache": draw(st.sampled_from(["Simple", "Simple", "None"])),
+        "cache_tol": 0.0,
+        "cache_name": "",
+        "seed": draw(st.integers(0, 3)),
+        "pre": draw(st.lists(st.fixed_dictionaries({"op": st.sampled_from(ops), "u": _u(), "k": st.integers(0, 7), "partial": st.booleans()}), max_size=2)),
+        "post": draw(st.lists(st.fixed_dictionaries({"u": _u(), "partial": st.booleans(), "lin": st.sampled_from(["no", "all", "subset"]), "k": st.integers(0, 7)}), min_size=1, max_size=2)),
+    }
+
+
+@st.composite
+def cross_cases(draw):
+    a = draw(st.sampled_from(CROSS_SEEDS))
+    b = draw(st.sampled_from([s for s in CROSS_SEEDS if s != a]))
+    # every batch holds analytic disciplines whose expressions have 5-6 input symbols
+    items = [_item(draw, "AnalyticDiscipline", {"e": [8], "name": 0}), _item(draw, "AnalyticDiscipline", {"e": [9, 8, 0], "name": 1})]
+    pool = [n for n in _weighted(("discipline", "mda")) if n not in CROSS_EXCLUDED]
+    for name in draw(st.lists(st.sampled_from(pool), min_size=4, max_size=6)):
+        items.append(_item(draw, name))
+    return {"save_seed": a, "load_seed": b, "items": items}
+
+
+def _selection(life, mode: str, k: int):
+    """What to differentiate: None (execute only), "all", or (inputs, outputs)."""
+    if mode == "no" or not life.rec.linearizable:
+        return None
+    ins, outs = life.diff_candidates()
+    if mode == "all" and not life.is_mda:
+        return "all"
+    if mode != "all":
+        ins = [ins[k % len(ins)]] if ins else []
+        outs = [outs[(k // 2) % len(outs)]] if outs else []
+    return (ins, outs) if ins and outs else None
+
+
+def _run_call(obj, call):
+    data, sel = _cp(call["data"]), call["sel"]
+    if sel is None:
+        out = _call(lambda: plain(dict(obj.execute(data))))
+    elif sel == "all":
+        out = _call(lambda: plain({o: dict(v) for o, v in obj.linearize(data, compute_all_jacobians=True).items()}))
+    else:
+        def lin():
+            obj.add_differentiated_inputs(sel[0])
+            obj.add_differentiated_outputs(sel[1])
+            return plain({o: dict(v) for o, v in obj.linearize(data).items()})
+
+        out = _call(lin)
+    return [out[0], out[1], plain(dict(obj.io.data))]
+
+
+def child_main(mode: str, jobdir: str) -> None:
+    """Entry point of the two child interpreters (started with their own PYTHONHASHSEED)."""
+    import json
+
+    from gemseo.utils.pickle import from_pickle
+    from gemseo.utils.pickle import to_pickle
+
+    from vlib.core import is_harness_fault
+
+    job = json.loads(open(os.path.join(jobdir, "job.json")).read())
+    out = []
+    if mode == "save":
+        for i, item in enumerate(job["items"]):
+            stage = "building"
+            try:
+                life = Life(item, item["cache"], jobdir)
+                for op in item["pre"]:
+                    life.apply(op)
+                obj = life.obj
+                probe = life.point([0.0])
+                no_lin = any(_contains(obj, name) for name in job["no_linearize"])
+                calls = [{"data": life.point(c["u"], c["partial"]), "sel": None if no_lin else _selection(life, c["lin"], c["k"])} for c in item["post"]]
+                downgraded = sum(1 for c in item["post"] if no_lin and c["lin"] != "no" and life.rec.linearizable)
+                stage = "pickling"
+                to_pickle(obj, os.path.join(jobdir, f"obj{i}.pkl"))
+                stage = "using the saved object"
+                view = snapshot(obj, True, probe)
+                results = [_run_call(obj, c) for c in calls]
+                out.append({"ok": True, "view": view, "probe": probe, "calls": calls, "results": results, "class": type(obj).__name__,
+                            "n_exec": life.n_exec, "n_lin": life.n_lin, "flags": sorted(life.flags), "downgraded": downgraded,
+                            "grammar": life.gtype})
+            except Exception as exc:  # noqa: BLE001
+                out.append({"ok": False, "stage": stage, "error": f"{type(exc).__name__}: {exc}", "harness": is_harness_fault(exc) and stage != "pickling",
+                            "trace": traceback.format_exc()[-1500:]})
+        with open(os.path.join(jobdir, "saved.pkl"), "wb") as f:
+            pickle.dump(out, f)
+        return
+    with open(os.path.join(jobdir, "saved.pkl"), "rb") as f:
+        saved = pickle.load(f)
+    for i, sv in enumerate(saved):
+        if not sv["ok"]:
+            out.append(None)
+            continue
+        stage = "unpickling"
+        try:
+            obj = from_pickle(os.path.join(jobdir, f"obj{i}.pkl"))
+            stage = "using the loaded object"
+            view = snapshot(obj, True, sv["probe"])
+            results = [_run_call(obj, c) for c in sv["calls"]]
+            out.append({"ok": True, "view": view, "results": results})
+        except Exception as exc:  # noqa: BLE001
+            out.append({"ok": False, "stage": stage, "error": f"{type(exc).__name__}: {exc}", "harness": is_harness_fault(exc) and stage != "unpickling",
+                        "trace": traceback.format_exc()[-1500:]})
+    with open(os.path.join(jobdir, "loaded.pkl"), "wb") as f:
+        pickle.dump(out, f)
+
+
+def _child(mode: str, jobdir: str, hash_seed: int) -> None:
+    import subprocess
+    import sys
+
+    from vlib.core import VERIF
+    from vlib.core import HarnessError
+
+    env_ = dict(os.environ, PYTHONHASHSEED=str(hash_seed))
+    try:
+        res = subprocess.run([sys.executable, "-c", _CHILD.format(verif=str(VERIF)), mode, jobdir], env=env_, cwd=str(VERIF),
+                             capture_output=True, text=True, timeout=WATCHDOG_S - 20)
+    except subprocess.TimeoutExpired:
+        raise _Inconclusive from None
+    if res.returncode != 0:
+        raise HarnessError(f"child interpreter ({mode}, PYTHONHASHSEED={hash_seed}) failed:\n{res.stderr[-3000:]}")
+
+
+@guarded
+def case_cross(p, ctx):
+    import json
+
+    from vlib.core import HarnessError
+
+    tmp = tempfile.mkdtemp(dir=os.environ.get("VERIF_SCRATCH"))
+    try:
+        no_lin = ["SobieskiAerodynamics"] if ctx.known("sobieski_aerodynamics_linearize_after_restore", count=False) else []
+        with open(os.path.join(tmp, "job.json"), "w") as f:
+            f.write(json.dumps({"items": p["items"], "no_linearize": no_lin}))
+        _child("save", tmp, p["save_seed"])
+        _child("load", tmp, p["load_seed"])
+        with open(os.path.join(tmp, "saved.pkl"), "rb") as f:
+            saved = pickle.load(f)
+        with open(os.path.join(tmp, "loaded.pkl"), "rb") as f:
+            loaded = pickle.load(f)
+        ctx.cls(f"cross:hash_seeds:{p['save_seed']}->{p['load_seed']}")
+        nontrivial = False
+        for item, sv, ld in zip(p["items"], saved, loaded):
+            what = f"{item['recipe']} (saved with PYTHONHASHSEED={p['save_seed']}, loaded with {p['load_seed']})"
+            if not sv["ok"]:
+                if sv["harness"]:
+                    raise HarnessError(f"saver child, {what}: {sv['error']}\n{sv['trace']}")
+                ctx.check(sv["stage"] != "pickling", "picklable", f"{what}: {sv['stage']} raises {sv['error']}")
+                ctx.cls(f"cross:not_built:{item['recipe']}")
+                continue
+            if not ld["ok"] and ld["harness"]:
+                raise HarnessError(f"loader child, {what}: {ld['error']}\n{ld['trace']}")
+            ctx.check(ld["ok"], "cross_interpreter_load", f"{what}: {ld.get('stage')} raises {ld.get('error')}")
+            for _ in range(sv["downgraded"]):
+                ctx.known("sobieski_aerodynamics_linearize_after_restore")
+            ctx.cls(f"cross:class:{sv['class']}", f"cross:grammar:{sv['grammar']}", *(f"cross:state:{f}" for f in sv["flags"] if "raises" not in f))
+            d = diff(sv["view"], ld["view"])
+            ctx.check(d is None, "cross_interpreter_state", f"{what}: the loaded object differs from the saved one: {d}")
+            for call, r1, r2 in zip(sv["calls"], sv["results"], ld["results"]):
+                kind = "execute" if call["sel"] is None else "linearize"
+                ctx.check(r1[0] == r2[0] and (r1[0] == "ok" or r1[1] == r2[1]), "cross_interpreter_behaviour",
+                          f"{what}: {kind} is {r1[0]} {r1[1] if r1[0] == 'raises' else ''} in the saving process and {r2[0]} {r2[1] if r2[0] == 'raises' else ''} in the loading one")
+                if r1[0] == "ok":
+                    # (after a finite-difference linearisation the local data keep the input perturbed last, which
+                    # depends on the iteration order of the interpreter: local data are compared after executions)
+                    d = diff(r1[1], r2[1]) or (diff(r1[2], r2[2], "local_data") if call["sel"] is None else None)
+                    ctx.check(d is None, "cross_interpreter_behaviour", f"{what}: {kind} at a generated point differs between the saving and the loading process: {d}",
+                              input=call["data"])
+                    ctx.cls(f"cross:{kind}")
+            nontrivial = nontrivial or (sv["n_exec"] >= 1 and sv["n_lin"] >= 1)
+        if nontrivial:
+            ctx.nontriv(("cross", p))
+            ctx.cls("nontrivial")
+        ctx.sample({"oracle": "cross_process", "hash_seeds": [p["save_seed"], p["load_seed"]], "recipes": [i["recipe"] for i in p["items"]]})
+    finally:
+        shutil.rmtree(tmp, ignore_errors=True)
+
+
+ORACLES = {"discipline": case_discipline, "function": case_function, "space": case_space, "problem": case_problem, "scenario": case_scenario,
+           "cross_process": case_cross}
 
 
 def _factory_coverage(ctx) -> None:
@@ -1564,7 +1816,8 @@ def run(ctx):
     for name, rec in R.RECIPES.items():
         if rec.kind in ("discipline", "mda"):
             ctx.drive("discipline", discipline_cases(name), case_discipline, quick=3 + rec.weight, thorough=12 + 10 * rec.weight)
-    ctx.drive("function", function_cases(), case_function, quick=120, thorough=1000)
-    ctx.drive("space", space_cases(), case_space, quick=60, thorough=500)
-    ctx.drive("problem", problem_cases(), case_problem, quick=40, thorough=300)
+    ctx.drive("function", function_cases(), case_function, quick=90, thorough=1000)
+    ctx.drive("space", space_cases(), case_space, quick=45, thorough=500)
+    ctx.drive("problem", problem_cases(), case_problem, quick=32, thorough=300)
     ctx.drive("scenario", scenario_cases(), case_scenario, quick=12, thorough=80)
+    ctx.drive("cross_process", cross_cases(), case_cross, quick=3, thorough=10)
